@@ -127,6 +127,8 @@ NestCases ==
                                 Func("top", <<>>, <<"int", "string", "bool">>, <<If1(BoolL(TRUE), <<PrintS(<<StrL("top")>>)>>), RetS(<<CallE("mid", <<NatLit(5)>>)>>)>>),
                                 Def(<<"p", "q", "r">>, <<CallE("top", <<>>)>>), PrintS(<<Var("p"), Var("q"), Var("r")>>),
                                 VarDef(<<"p2">>, "int", <<>>), VarDef(<<"q2">>, "string", <<>>), VarDef(<<"r2">>, "bool", <<>>), Asg(<<"p2", "q2", "r2">>, <<CallE("mid", <<NatLit(1)>>)>>), PrintS(<<Var("p2"), Var("q2"), Var("r2")>>)>>),
+   CaseOf("C02/nest/bare", <<FuncBare("tick", <<>>, <<PrintS(<<StrL("tick")>>)>>), FuncBare("seven", <<"int">>, <<ExprS(CallE("tick", <<>>)), RetS(<<NatLit(7)>>)>>),
+                             ExprS(CallE("tick", <<>>)), PrintS(<<CallE("seven", <<>>), Bin("+", CallE("seven", <<>>), NatLit(1))>>)>>),
    CaseOf("C02/nest/args", <<Func("add", <<Param("a", "int"), Param("b", "int")>>, <<"int">>, <<RetS(<<Bin("+", Var("a"), Var("b"))>>)>>),
                              Func("dbl", <<Param("a", "int")>>, <<"int">>, <<RetS(<<Bin("*", Var("a"), NatLit(2))>>)>>),
                              PrintS(<<CallE("add", <<CallE("dbl", <<NatLit(3)>>), CallE("dbl", <<CallE("add", <<NatLit(1), NatLit(1)>>)>>)>>)>>),
